@@ -1,4 +1,4 @@
-import Ruint.Model.Add
+import Ruint.Base
 /-!
 # Model of the bit-level part of `src/bits.rs` and `src/special.rs` (C06)
 
@@ -53,12 +53,18 @@ def rev64 (x : Nat) : Nat := revAux 64 x 0
 
 /-! ## `Uint` level -/
 
+/-- `Uint::ZERO` (own copy: this file depends on `Ruint.Base` only). -/
+def zero (bits : Nat) : List Nat := List.replicate (nlimbs bits) 0
+
+/-- `Uint::MAX`: all-ones limbs, top limb masked. -/
+def maxU (bits : Nat) : List Nat := maskTop bits (List.replicate (nlimbs bits) (W - 1))
+
 /-- `Uint::BYTES`. -/
 def nbytes (bits : Nat) : Nat := (bits + 7) / 8
 
 /-- `Uint::not`: `BITS == 0` early return, limb-wise `!`, then `masked()`. -/
 def not (bits : Nat) (a : List Nat) : List Nat :=
-  if bits = 0 then Add.zero bits else maskTop bits (a.map wnot)
+  if bits = 0 then zero bits else maskTop bits (a.map wnot)
 
 /-- `BitAndAssign<&Uint>`: `for i in 0..LIMBS { self.limbs[i] &= rhs.limbs[i] }` (all six operator
     shapes forward to it). -/
